@@ -251,6 +251,7 @@ func c41GenStream(rng *rand.Rand, caseIdx, sIdx int, uid *uint64, budget int) *c
 	pInv := []float64{0, 0.1, 0.3}[rng.IntN(3)]
 	vmix := rng.IntN(3) // 0 v4, 1 v6, 2 both
 	payload := s.MTU - dataplane.VerifHdrLen
+	budget = min(budget, 1200*payload) // bound the number of frames per stream
 	total := 0
 	for i := 0; i < n && total < budget; i++ {
 		*uid++
@@ -496,7 +497,10 @@ func (cx *c41Ctx) receive(streams []*c41Stream, sched []c41Delivery, rx string, 
 	if rx == "run" {
 		weight += 66
 	}
+	t0 := time.Now()
 	cx.pool.acquire(weight)
+	t0 = c41Since(&cx.tRxWait, t0)
+	defer c41Since(&cx.tRx, t0)
 	defer cx.pool.release(weight)
 	tun := &c41Tun{}
 	w := dataplane.VerifNewWorker(streams[0].Sess, tun)
@@ -550,6 +554,14 @@ const c41Note = "packets are regenerated from seed+case index by --replay; in co
 type c41Ctx struct {
 	r    *mon.Run
 	pool *c41Pool
+	// accumulated wall time per phase, reporting only
+	tGen, tEnc, tRx, tRxWait atomic.Int64
+}
+
+func c41Since(acc *atomic.Int64, t0 time.Time) time.Time {
+	now := time.Now()
+	acc.Add(int64(now.Sub(t0)))
+	return now
 }
 
 func c41Hex(b []byte) string {
@@ -685,7 +697,9 @@ func (cx *c41Ctx) runCase(idx int) {
 	var uid uint64
 	budget := r.Pick(160_000, 400_000) / nStreams
 	for si := 0; si < nStreams; si++ {
+		t0 := time.Now()
 		s := c41GenStream(rng, idx, si, &uid, budget)
+		c41Since(&cx.tGen, t0)
 		s.Sess = uint8(idx) // one session per case: all its streams go to one worker
 		c.Streams = append(c.Streams, s)
 	}
@@ -698,10 +712,12 @@ func (cx *c41Ctx) runCase(idx int) {
 
 	// ---- sender ----
 	for si, s := range c.Streams {
+		t0 := time.Now()
 		if !s.encode(rng) {
 			r.Inconclusive("encoder stalled (watchdog)")
 			return
 		}
+		c41Since(&cx.tEnc, t0)
 		s.prepare()
 		for k, p := range s.exp {
 			c.index[string(p.b)] = c41Ref{si, k}
@@ -967,7 +983,7 @@ func checkC41(r *mon.Run) {
 	cx := &c41Ctx{r: r, pool: &c41Pool{free: dataplane.VerifFreeFramesCap - 24, total: dataplane.VerifFreeFramesCap - 24}}
 	cx.pool.c = sync.NewCond(&cx.pool.mu)
 
-	first, total := 0, r.Pick(300, 30000)
+	first, total := 0, r.Pick(500, 12000)
 	if f := r.ReplayFile(); f != "" {
 		var rp struct {
 			Witness struct {
@@ -1001,6 +1017,9 @@ func checkC41(r *mon.Run) {
 		}()
 	}
 	wg.Wait()
+	sec := func(a *atomic.Int64) float64 { return float64(a.Load()/1e6) / 1e3 }
+	r.Extra("phase_seconds_summed_over_workers", map[string]float64{"generate": sec(&cx.tGen), "encode": sec(&cx.tEnc),
+		"receive": sec(&cx.tRx), "receive_wait_for_pool_budget": sec(&cx.tRxWait)})
 	if r.ReplayFile() != "" {
 		r.Require(1, 2, "lossless_stream")
 		return
